@@ -341,7 +341,28 @@ func genItem(t *Tape) Item {
 		it.Inputs = append(it.Inputs, ProgInput{Name: "in2.json", Data: QBytes(doc())})
 	}
 	k1, k2 := histKeys[t.Draw(len(histKeys))], histKeys[t.Draw(len(histKeys))]
-	switch t.Weighted(5, 5, 3, 3, 3, 2, 2, 2, 2, 2, 2, 1, 1) {
+	switch t.Weighted(5, 5, 3, 3, 3, 2, 2, 2, 2, 2, 2, 1, 1, 4, 2, 3, 2) {
+	case 13:
+		// regular expressions: literal and string forms, patterns that share
+		// prefixes and lengths (a process-level cache keyed too coarsely shows here)
+		pats := []string{"^al", "^alp", "^alpha$", "a$", "a$|u$", "eta", "eta$", "^(be|ga)", "^(be|ga|de)", "^.a", "^.e", "^...$", "^....$", "[aeiou]{2}", "[aeiou]t", "^[a-m]", "^[n-z]", "mu|nu", "mu|xi"}
+		p1, p2 := pats[t.Draw(len(pats))], pats[t.Draw(len(pats))]
+		it.Prog = fmt.Sprintf("{ for (k, v in $) { if (k ~ /%s/) { print \"m1\", k }\n if (k !~ \"%s\") { print \"n2\", k } } }", p1, p2)
+	case 15:
+		// printf that fails part-way through its format (at the first non-number value), after earlier successes
+		it.Prog = "{ for (k, v in $) { printf(\"%s=%f;\\n\", k, v) } }\nEND { printf(\"done %s\\n\", \"x\") }"
+	case 16:
+		// every printf error kind after some formatted text
+		it.Prog = []string{
+			"{ printf(\"a=%s b=%s\\n\", \"x\") }",
+			"{ printf(\"head %q tail\\n\", 1) }",
+			"{ printf(\"width %99999999s\\n\", \"x\") }",
+			"{ printf(\"dangling %\") }",
+			"BEGIN { printf(\"ok %s\\n\", \"fine\") }\n{ printf(\"n=%f\\n\", \"notnum\") }",
+		}[t.Draw(5)]
+	case 14:
+		// number / string method results and printf through every prototype
+		it.Prog = fmt.Sprintf("{ for (k, v in $) { if (v is number) { printf(\"%%s=%%f|%%5f|%%-5f|\\n\", k, v, v / 3, v.floor()) }\n if (v is string) { print v.upper(), v.length(), v.split(\"s\") } } }")
 	case 0:
 		it.Prog = "{ print }"
 	case 1:
